@@ -148,6 +148,9 @@ func run(id, tier, seed, replay string, shardsOverride int, keep bool) int {
 			_ = os.Remove(filepath.Join(work, "c.test"))
 		}()
 	}
+	if replay == "" {
+		_ = os.RemoveAll(filepath.Join(root(), ".work", "violations", id))
+	}
 	env := scrubEnv()
 	env = append(env, "VERIF_TIER="+tier, "VERIF_SEED="+seed, "VERIF_WORK="+work, "VERIF_ROOT="+root())
 
